@@ -21,10 +21,11 @@ HERE = os.path.dirname(os.path.dirname(os.path.abspath(__file__)))
 SPEC = os.path.join(HERE, "spec")
 BASE = 32768
 SLACK = 0            # allowance of the single-threaded decoders beyond max(limit, LZMA_MEMUSAGE_BASE): none needed
+SLACK_INDEX = 16384  # Index / file info decoders: usage counts the Indexes only; coder structures (8 KiB buffer) come on top
 SLACK_MT = 16384     # threaded decoder: thread table, coder structures, index hash (not in its own accounting)
 VARIANTS_BROKEN = {"set_accepts_small": "MCMemLimitSt.cfg", "usage_not_updated": "MCMemLimitSt.cfg",
                    "compare_after_alloc": "MCMemLimitSt.cfg", "threading_test_uses_stop": "MCMemLimitMt.cfg",
-                   "can_start_uses_stop": "MCMemLimitMt.cfg"}
+                   "can_start_uses_stop": "MCMemLimitMt.cfg", "outq_cache_test_uses_in_use": "MCMemLimitMt.cfg"}
 FINDING = {"mt_usage_excludes_need": ("memlimit:stream_decoder_mt:memusage-not-needed-amount",
                                       "after LZMA_MEMLIMIT_ERROR from lzma_stream_decoder_mt, lzma_memusage() reports the memory "
                                       "currently allocated, not the amount the refused Block needs; raising the limit to the "
@@ -95,6 +96,14 @@ def make_files(ctx, lz, coders, D):
         coders.encode_xz(text[:9000], preset=0, block_size=300)
     files.append(("file_info", "fileinfo-3streams", multi))
     files.append(("file_info", "fileinfo-1stream", x1))
+    # several concatenated Streams whose Indexes are each larger than LZMA_MEMUSAGE_BASE: the limit that lets the
+    # decoder through k Streams must not let it hold k+1 Indexes
+    for nstreams, nrec in ([(4, 4000)] if ctx.quick else [(3, 6000), (4, 4000), (6, 2500), (2, 9000)]):
+        parts = []
+        for s in range(nstreams):
+            parts.append(D.synth_xz_stream([(rng.randint(5, 8), rng.randint(1, 90000)) for _ in range(nrec + 37 * s)]))
+            parts.append(bytes(4 * rng.randint(0, 2)))
+        files.append(("file_info", "fileinfo-%dstreams-%drecords" % (nstreams, nrec), b"".join(parts[:-1])))
     return files
 
 
@@ -214,6 +223,16 @@ def estimate_events(ctx, lz, coders, D):
         pk, r = D.measure_peak(lambda c: c.init("lzma_stream_encoder_mt", C.byref(mt)), big)
         add("lzma_stream_encoder_mt_memusage", L.lzma_stream_encoder_mt_memusage(C.byref(mt)), pk,
             "stream_encoder_mt threads=%d preset=%d block_size=%d" % (threads, preset, bs))
+    # the same estimate against the peak under a slow consumer (the output queue fills up to its 2*threads buffers)
+    for threads, preset, bs in ([(3, 0, 1 << 18), (2, 1, 1 << 19)] if ctx.quick else
+                                [(3, 0, 1 << 18), (2, 1, 1 << 19), (4, 0, 1 << 17), (2, 3, 1 << 20)]):
+        mt = lz.Mt(); mt.threads = threads; mt.preset = preset; mt.block_size = bs; mt.check = lz.CHECK_CRC64
+        big = coders.rand_data(rng, 1 << 15, "text") * ((2 * threads + 3) * bs >> 15)
+        pk, r = D.measure_peak_slow(lambda c: c.init("lzma_stream_encoder_mt", C.byref(mt)), big)
+        add("lzma_stream_encoder_mt_memusage", L.lzma_stream_encoder_mt_memusage(C.byref(mt)), pk,
+            "stream_encoder_mt slow consumer threads=%d preset=%d block_size=%d" % (threads, preset, bs))
+        ctx.extra.setdefault("mt_encoder_slow_consumer", []).append(
+            dict(threads=threads, block_size=bs, estimate=int(L.lzma_stream_encoder_mt_memusage(C.byref(mt))), peak=int(pk or 0)))
     # lzma_index_memusage(streams, blocks) vs an index really built (lzma_index_memused and the allocator)
     for streams, blocks in ([(1, 0), (1, 1), (1, 513), (3, 700)] if ctx.quick else [(1, 0), (1, 1), (1, 512), (1, 513), (3, 700), (7, 5000), (40, 3)]):
         al = D.SizeAlloc(); cur = None
@@ -242,36 +261,54 @@ def estimate_events(ctx, lz, coders, D):
 
 
 # ------------------------------------------------------------------ threaded decoder
-def mt_setup(ctx, lz, coders, D):
+def mt_setup(ctx, lz, coders, D, hetero=False):
+    """A multi-Block file for the threaded decoder with the per-Block needs <<filters, inbuf, outbuf, known>>.
+    hetero: three Blocks with cheap filters followed by one of the same uncompressed size with expensive filters."""
     rng = ctx.rng
-    data = coders.rand_data(rng, 200000, "text")
-    x = coders.encode_xz(data, preset=0, block_size=50000)
-    px, real, blocks = D.patch_all_blocks(x, 1 << 20)
-    f = coders.lzma2_filters(0, dict_size=real)
-    F = lz.L().lzma_raw_decoder_memusage(f)
+    if hetero:
+        piece = coders.rand_data(rng, 1 << 16, "text")
+        data = piece * 64
+        bs = 1 << 20
+        x = coders.encode_xz(data, preset=0, block_size=bs)
+        px, real, blocks = D.patch_all_blocks(x, 1 << 18)        # preset 0 dictionary: unchanged
+        dicts = [real] * (len(blocks) - 1) + [8 << 20]
+        out = bytearray(px)
+        blk = blocks[-1]
+        hdr = bytes(out[blk["off"]:blk["off"] + blk["hs"]])
+        one, dicts[-1] = D.patch_xz_dict(b"\0" * 12 + hdr, dicts[-1])
+        out[blk["off"]:blk["off"] + blk["hs"]] = one[12:]
+        px = bytes(out)
+    else:
+        data = coders.rand_data(rng, 200000, "text")
+        bs = 50000
+        x = coders.encode_xz(data, preset=0, block_size=bs)
+        px, real, blocks = D.patch_all_blocks(x, 1 << 20)
+        dicts = [real] * len(blocks)
+    Fs = [int(lz.L().lzma_raw_decoder_memusage(coders.lzma2_filters(0, dict_size=ds))) for ds in dicts]
+    uncomps = sorted({b["uncomp"] for b in blocks})
     # sizeof(lzma_outbuf): the output buffer allocation of a threaded run minus the Block's uncompressed size
     r = D.LimitedRun("stream_mt", px, D.UNL, threads=2, tlimit=D.UNL).run()
-    cand = [s - 50000 for s in r.al.sizes if 50000 < s < 50000 + 512]
+    cand = [s - uncomps[-1] for s in r.al.sizes if uncomps[-1] < s < uncomps[-1] + 512]
     if not cand:
         raise MachineryError("no output-buffer-sized allocation seen in a threaded run")
     ob = cand[0]
     check_size = 4
     bl = []
-    for b in blocks:
+    for b, F in zip(blocks, Fs):
         comp = b["unpadded"] - b["hs"] - check_size
-        bl.append([int(F), (comp + 3) // 4 * 4 + check_size, b["uncomp"] + ob, True])
-    return dict(data=data, file=px, F=int(F), blocks=bl, ref=r, outbuf_overhead=ob)
+        bl.append([F, (comp + 3) // 4 * 4 + check_size, b["uncomp"] + ob, True])
+    return dict(data=data, file=px, F=max(Fs), blocks=bl, ref=r, outbuf_overhead=ob, outbufs={u + ob for u in uncomps})
 
 
-def mt_run(lz, D, S, T, su, threads, lower=0, chunk=None):
-    r = D.LimitedRun("stream_mt", su["file"], S, threads=threads, tlimit=T, chunk=chunk)
+def mt_run(lz, D, S, T, su, threads, lower=0, chunk=None, out_chunk=1 << 16):
+    r = D.LimitedRun("stream_mt", su["file"], S, threads=threads, tlimit=T, chunk=chunk, out_chunk=out_chunk)
     setret = "none"
     if lower:
         setret = lz.retname(r.set_limit(lower))
     r.run()
     codes = [e for e in r.events if e["e"] == "Code"]
     peak = max(e.get("peak", 0) for e in r.events)
-    threaded = any(50000 < s < 50000 + 512 for s in r.al.sizes)
+    threaded = any(s in su["outbufs"] for s in r.al.sizes)
     ref = su["ref"]
     if r.ret == lz.MEMLIMIT_ERROR:
         same = bytes(ref.out).startswith(bytes(r.out))
@@ -365,6 +402,7 @@ def run(ctx):
                     if "peak" in e and lim is not None:
                         max_over = max(max_over, e["peak"] - max(lim, BASE))
                     lim = e["limit"]
+    ctx.extra["index_decoders_allowance_bytes"] = SLACK_INDEX
     ctx.extra["st_allowance_bytes"] = SLACK
     ctx.extra["st_max_peak_minus_max(limit,BASE)"] = max_over
     # ---------------- (V) estimates
@@ -386,6 +424,28 @@ def run(ctx):
         mtev.append(mt_run(lz, D, S, T, su, th, chunk=ctx.rng.choice([None, 7000])))
     for lower in ([F + 16, F + B + 2000] if quick else [F - 1, F, F + 16, F + B + 2000, 3 * (F + B)]):
         mtev.append(mt_run(lz, D, 6 * (F + B), 6 * (F + B), su, 3, lower=lower))
+    # heterogeneous Blocks: limits just above / below what each kind of Block needs, fast and slow consumers
+    sh = mt_setup(ctx, lz, coders, D, hetero=True)
+    needs = sorted({b[0] + b[1] + b[2] for b in sh["blocks"]})
+    Fh = sorted({b[0] for b in sh["blocks"]})
+    Fc = Fh[0]; Ob = max(b[2] for b in sh["blocks"])
+    # tight limits: the expensive Block fits together with k cached cheap decoders / with k-1 surplus cached output
+    # buffers - the thresholds of the two eviction tests of SEQ_BLOCK_THR_INIT
+    tight = [needs[-1] + 65536] + [needs[-1] + k * Fc + 32768 for k in (1, 2, 3)] + [needs[-1] + k * Ob - 32768 for k in (1, 2)]
+    hT = tight + [needs[-1] - 1000, needs[0] + 1000, 3 * needs[0] + 1000, 2 * needs[-1], D.UNL]
+    hS = [D.UNL, Fh[-1], Fh[-1] - 1, needs[-1] + 65536]
+    hcombos = [(T, S, th, oc, ic) for T in hT for S in hS for th in (2, 4) for oc in (1 << 16, 4096) for ic in (None, 100000)]
+    always = [c for c in hcombos if c[0] in tight and c[1] == D.UNL and c[4] is None and (c[2] == 4 or c[3] == 4096)]
+    rest = [c for c in hcombos if c not in always]
+    if quick:
+        rest = ctx.rng.sample(rest, 14)
+    hev = []
+    for T, S, th, oc, ic in always + rest:
+        hev.append(mt_run(lz, D, S, T, sh, th, chunk=ic, out_chunk=oc))
+    hists.append(("stream_decoder_mt|heterogeneous-blocks", [dict(e="Reset")] + hev))
+    for e in hev:
+        ctx.case(key=("mth", json.dumps(e)))
+    ctx.extra["mt_hetero_runs"] = len(hev)
     mt_over = max((e["peak"] - min(e["S"], max(e["T"], F)) for e in mtev if e["ret"] == "STREAM_END" and not e["lower"]), default=0)
     ctx.extra["mt_allowance_bytes"] = SLACK_MT
     ctx.extra["mt_max_peak_minus_bound"] = mt_over
@@ -426,7 +486,8 @@ def run(ctx):
     from checks import c09_xz
     c09_xz.run(ctx)
 
-    ctx.assumptions += ["allowance: single-threaded decoders 0 bytes beyond max(limit, LZMA_MEMUSAGE_BASE=32768); "
+    ctx.assumptions += ["allowance: .xz/.lzma/.lz/auto decoders 0 bytes beyond max(limit, LZMA_MEMUSAGE_BASE=32768); Index and file info "
+                        "decoders 16384 bytes (their usage figure covers the Indexes only); "
                         "threaded decoder %d bytes (thread table, coder, index hash are outside its accounting)" % SLACK_MT,
                         "declared dictionary sizes are set by patching encoder output (LZMA2 property byte + Block Header CRC32, "
                         ".lzma header field, .lz header byte); allocations >= 1 MiB come from untouched anonymous mmap",
